@@ -144,7 +144,7 @@ def rule_separator_pairing(ctx: Ctx, rule: str) -> None:
                    'separator is emitted only outside path mode or directly behind _restrict_extended_slash()')
     repo = ctx.repo
     n_top = n_bare = 0
-    for qn in ('WcParse.root', 'WcParse.parse_extend', 'WcParse._handle_star'):  # _references: decided by its table (C02-R9)
+    for qn in ('WcParse.parse_extend', 'WcParse._handle_star'):  # _references: its table (C02-R9); root: its token table (below)
         fi = repo.func(WP, qn)
         q = fq(fi)
         tops, bare = _sep_emissions(fi)
@@ -211,65 +211,19 @@ def rule_separator_pairing(ctx: Ctx, rule: str) -> None:
             ctx.ob(rule, key, ok, site, 'outside path mode, or directly behind _restrict_extended_slash()',
                    'non-path branch' if nonpath else ('restricted' if restricted else f'{norm_src(p)}; guards {sorted(g)}'),
                    witness="globmatch('a/b', '@(a/b)', EXTGLOB) must be False")
-    ctx.floor(rule, 'top-level separator emissions', n_top, 1)
-    ctx.floor(rule, 'bare separator emissions', n_bare, 1)
-    # named instances: the places where a written separator must become a run of separators
-    for qn, conds in (('WcParse.root', [("c == '/'", 'self.pathname')]),):
-        fi = repo.func(WP, qn)
-        q = fq(fi)
-        tops, _b = _sep_emissions(fi)
-        for ctest, mode in conds:
-            have = [t for t in tops if (ctest, 'T') in q.guards(t) and (mode, 'T') in q.guards(t)]
-            ctx.ob(rule, f'{WP}:{qn}/sep-run-present[{ctest}]', bool(have), repo.loc(WP, fi.node),
-                   f'under {ctest} and {mode}: emits `self.sep + _ONE_OR_MORE`', f'{len(have)} emission(s)',
-                   witness="globmatch('a//b', 'a/b') must be True: a written separator stands for a run of separators")
-    # the escaped-separator arm of root: when _references reported a directory start, do the same bookkeeping
-    fi = repo.func(WP, 'WcParse.root')
-    q = fq(fi)
-    ifs = [n for n in walk_no_nested(fi.node) if isinstance(n, ast.If) and norm_src(n.test) == 'self.dir_start']
-    ctx.floor(rule, 'dir_start follow-up blocks in root', len(ifs), 1)
-    for i, blk in enumerate(ifs, 1):
-        txt = {norm_src(s) for s in blk.body}
-        need = {'self.clean_up_inverse(current)', 'self.consume_path_sep(i)', 'self.matchbase = False'}
-        ctx.ob(rule, f'{WP}:WcParse.root/escaped-separator-followup@{i}', need <= txt, repo.loc(WP, blk),
-               f'{sorted(need)}', f'{sorted(txt)}',
-               witness=r"FORCEWIN: globmatch('a\\\\b', 'a\\\\\\\\b') -- runs of escaped separators count as one")
+    ctx.count(f'{rule}:separator emissions outside root/_references', n_top + n_bare)
+    from . import seqrules
+    seqrules.rule_root_loop(ctx, rule)
 
 
 # ------------------------------------------------------------------------------------------------ R4
 def rule_bracket_abort(ctx: Ctx, rule: str) -> None:
-    ctx.text(rule, 'a bracket expression is abandoned at a separator in path mode: WcParse._sequence raises '
-                   'StopIteration on `/` when pathname; every _references(sequence=True) raises PathNameException on '
-                   '`\\/` (pathname) and `\\\\` (bslash_abort); the two splitting scanners (WcSplit, _GlobSplit) have the '
-                   'same abort predicates and every _sequence converts PathNameException into StopIteration')
-    repo = ctx.repo
-    members = [(WP, 'WcParse', True), (WP, 'WcSplit', True), ('glob', '_GlobSplit', False)]
-    n = 0
-    for mod, cls, has_pathname_attr in members:
-        seqf = repo.func(mod, f'{cls}._sequence')
-        q = fq(seqf)
-        raises = [r for r in q.stmts(lambda x: isinstance(x, ast.Raise)) if r.exc is not None and
-                  norm_src(r.exc).startswith('StopIteration') and not q.in_handler(r, {'PathNameException'})]
-        good = []
-        for r in raises:
-            g = q.guards(r)
-            if ("c == '/'", 'T') in g and (not has_pathname_attr or ('self.pathname', 'T') in g):
-                extra = [t for t, pol in g if pol == 'T' and t not in ("c == '/'", 'self.pathname') and not t.startswith("c != ']'")]
-                if not extra:
-                    good.append(r)
-        n += 1
-        ctx.ob(rule, f'{mod}:{cls}._sequence/abort-on-slash', bool(good), repo.loc(mod, seqf.node),
-               "raise StopIteration exactly under c == '/'" + (' and self.pathname' if has_pathname_attr else ''),
-               f'{len(good)} matching raise(s) of {len(raises)}',
-               witness="globmatch('a[/]b', 'a[/]b') -- `[` is literal when the bracket contains a separator")
-        conv = [h for h in walk_no_nested(seqf.node) if isinstance(h, ast.ExceptHandler) and h.type is not None and
-                norm_src(h.type).endswith('PathNameException') and
-                any(isinstance(s, ast.Raise) and s.exc is not None and norm_src(s.exc).startswith('StopIteration') for s in h.body)]
-        n += 1
-        ctx.ob(rule, f'{mod}:{cls}._sequence/pathname-exception-converted', bool(conv), repo.loc(mod, seqf.node),
-               'except PathNameException: raise StopIteration', f'{len(conv)} handler(s)')
-    # the _references half of the abort predicate is decided by the decision tables of C02-R9
-    ctx.floor(rule, 'scanner abort predicates', n, 6)
+    ctx.text(rule, 'a bracket expression is abandoned at a separator in path mode (decision tables of one scan-loop iteration of the '
+                   'three _sequence methods, exception handlers explored): `/` raises StopIteration when pathname (always in the glob '
+                   'splitter); an escape is handed to _references(i, True), whose table (C02-R9) raises PathNameException on `\\/` and '
+                   '`\\\\`; every _sequence converts PathNameException into StopIteration')
+    from . import seqrules
+    seqrules.rule_scan_loops(ctx, rule, which={'abort-on-slash', 'escape-in-bracket', 'pathname-exception-converted'})
 
 
 def bit_attr_table(ev: SymEval, paths: list, name: str, oracle: Any) -> tuple[bool, str, int]:
